@@ -34,7 +34,7 @@ func init() {
 			r.Cov["outcomes"] = m.Outc
 			r.Cov["exhaustive"] = !m.CapHit
 			r.Assume = []string{
-				"mutation alphabet: 30 replacement node kinds, child delete/duplicate/swap/append, 9 length-octet corruptions, 4 content corruptions, truncation at every byte offset",
+				"mutation alphabet: 30 replacement node kinds, child delete/duplicate/swap/append, 9 length-octet corruptions, 4 content corruptions, truncation at every byte offset; raw streams of 0..3 bytes followed by the end of the stream",
 				"announced lengths are capped at 1 MiB (go-asn1-ber allocates the announced length before reading)",
 				"clause (b) of the quantifier (coverage-guided random byte streams) is sampling and is not part of this check",
 				"the recover() wrapper stands for both server configurations: with recovery disabled the process would die, with it enabled the connection-level recover would swallow the panic",
@@ -304,6 +304,31 @@ func c02decode(c *Ctx, opname string, b []byte, desc string) {
 }
 
 func c02run(c *Ctx) {
+	// ---- short raw streams: every stream of one or two bytes followed by the end of the stream, and every
+	// three-byte stream that starts like an LDAPMessage or like a TLS record (what a wrong-protocol client sends)
+	shortStream := func(b []byte) {
+		if !c.Mine() {
+			return
+		}
+		c.Count("states", 1)
+		c.Count("transitions", 1)
+		c.Count("short_streams", 1)
+		c02decode(c, "raw", b, fmt.Sprintf("raw stream % x then end of stream", b))
+	}
+	shortStream(nil)
+	for a := 0; a < 256; a++ {
+		shortStream([]byte{byte(a)})
+		for b := 0; b < 256; b++ {
+			if a == 0x30 || a == 0x16 || a == 0x80 || a == 0x15 || b%17 == 3 || c.Thorough() {
+				shortStream([]byte{byte(a), byte(b)})
+			}
+			if (a == 0x30 || a == 0x16) && (c.Thorough() || b < 8 || b >= 0x80 && b < 0x88) {
+				for d := 0; d < 256; d++ {
+					shortStream([]byte{byte(a), byte(b), byte(d)})
+				}
+			}
+		}
+	}
 	canon := c02canon()
 	for ci, root := range canon {
 		op := opOf(root.Bytes())
